@@ -144,7 +144,7 @@ func runConc(args []string) int {
 				put("bip39.mn"+fmt.Sprint(it), mn)
 				id, _ := chaincfg.HDPrivateKeyToPublicKeyID(chaincfg.MainNet.HDPrivateKeyID[:])
 				put("chaincfg", hx(id))
-				put("dpath", bip32.DerivePath(uint64(it)*977))
+				put("dpath"+fmt.Sprint(it), bip32.DerivePath(uint64(it)*977))
 			}
 		}(w)
 	}
